@@ -732,30 +732,45 @@ fn diff_exact(got: &[View], want: &[View]) -> Option<(&'static str, String)> {
     } else if missing > 0 {
         "records-misrouted"
     } else {
-        "order-differs-from-documented"
+        // same multiset in another order: allowed as long as it is the same order on all three
+        // helpers (compared by the caller through `arrangement`)
+        return None;
     };
     Some((class, detail))
+}
+
+/// positions in `want` (the source-shard concatenation, a canonical naming of the records) of the
+/// records of `got`, in the order `got` holds them; equal views take the smallest unused position
+fn arrangement(got: &[View], want: &[View]) -> Vec<usize> {
+    let mut used = vec![false; want.len()];
+    got.iter()
+        .map(|g| {
+            let i = (0..want.len()).find(|i| !used[*i] && want[*i] == *g).unwrap_or(usize::MAX);
+            if i != usize::MAX {
+                used[i] = true;
+            }
+            i
+        })
+        .collect()
 }
 
 /// Lenient check for a shard that returned `Ok` although a sibling shard `f` failed: everything
 /// from the other sources must be there; of the records `f` selected for it, a prefix.
 fn diff_with_failed_source(got: &[View], want_by_src: &[Vec<View>], failed: &[usize]) -> Option<String> {
-    let mut at = 0;
+    // multiset reasoning only (no particular order is part of the property): every record of a
+    // healthy source must be there, of a failed source any sub-multiset, and nothing else
+    let mut g = multiset(got);
     for (s, w) in want_by_src.iter().enumerate() {
-        if failed.contains(&s) {
-            let mut k = 0;
-            while k < w.len() && at < got.len() && got[at] == w[k] {
-                at += 1;
-                k += 1;
+        for v in w {
+            match g.get_mut(v) {
+                Some(c) if *c > 0 => *c -= 1,
+                _ if failed.contains(&s) => {}
+                _ => return Some(format!("a record selected for it by (healthy) shard {s} is missing")),
             }
-        } else {
-            if got.len() < at + w.len() || got[at..at + w.len()] != w[..] {
-                return Some(format!("records selected for it by (healthy) shard {s} are missing or out of place"));
-            }
-            at += w.len();
         }
     }
-    if at != got.len() { Some(format!("{} record(s) beyond the expected content", got.len() - at)) } else { None }
+    let extra: usize = g.values().sum();
+    if extra != 0 { Some(format!("{extra} record(s) beyond the expected content")) } else { None }
 }
 
 fn out_violation(h: usize, s: usize, o: &Out, what: &str, cj: &Value) -> CaseErr {
@@ -780,6 +795,8 @@ fn check(spec: &Spec, plains: &[Vec<Plain>], run: &Run, cj: &Value) -> Result<Ch
         spec.stream_err.iter().filter(|e| e.helper == h).map(|e| e.shard).chain(spec.fault.iter().filter(|f| f.helper == h).map(|f| f.to)).collect()
     };
     let mut sels = vec![];
+    // [helper][dest shard] -> order in which the shard holds its records (see `arrangement`)
+    let mut orders: Vec<Vec<Option<Vec<usize>>>> = vec![vec![None; n]; 3];
     for h in 0..3 {
         let failed = failed_src(h);
         // any panic is a failure of the case
@@ -848,6 +865,7 @@ fn check(spec: &Spec, plains: &[Vec<Plain>], run: &Run, cj: &Value) -> Result<Ch
                         if let Some((class, detail)) = diff_exact(got, &want) {
                             return Err(violation(class, format!("helper {h} shard {d} {detail} (mode {}, api {:?})", spec.mode.name(), spec.api), cj.clone()));
                         }
+                        orders[h][d] = Some(arrangement(got, &want));
                     } else {
                         labels.push("sibling-of-failed-shard:ok".into());
                         if let Some(e) = diff_with_failed_source(got, &exp[d], &failed) {
@@ -866,6 +884,25 @@ fn check(spec: &Spec, plains: &[Vec<Plain>], run: &Run, cj: &Value) -> Result<Ch
             }
         }
         sels.push(Some(sel));
+    }
+    // the order in which a shard holds its records must be the same on all three helpers (their
+    // start delays and stream timings differ within a case), or replicated shares are misaligned.
+    // Helpers can only be compared when they selected identically (not under PRSS selection,
+    // where each pair of helpers has its own randomness).
+    if !matches!(spec.mode, Mode::Prss(_)) {
+        for d in 0..n {
+            let known: Vec<(usize, &Vec<usize>)> = (0..3).filter_map(|h| orders[h][d].as_ref().map(|o| (h, o))).collect();
+            if let Some((h0, o0)) = known.first() {
+                for (h, o) in &known[1..] {
+                    if o != o0 {
+                        return Err(violation("order-differs-between-helpers", format!("shard {d}: helper {h0} holds its records in the arrangement {o0:?} (positions in the source-shard concatenation), helper {h} in {o:?} (mode {}, api {:?})", spec.mode.name(), spec.api), cj.clone()));
+                    }
+                }
+                if o0.iter().enumerate().any(|(i, p)| i != *p) {
+                    labels.push("order:not-the-source-shard-concatenation".into());
+                }
+            }
+        }
     }
     // PRSS selection: the two helpers that share the randomness must have selected identically
     // (otherwise their shares of a record end up in different places)
@@ -1217,7 +1254,7 @@ pub fn subs(_env: &Env) -> Vec<Sub> {
     vec![
         Sub::random(
             "reshard_order", 700, 12_000, 240_000, honest,
-            "shards {1,2,3,5} x records per source shard (all empty, one record, fewer than shards, one source only, even, skewed, random split; total 0..80, thorough 0..400) x record type {Replicated<BA64>, PrfHybridReport<BA8,BA3>} x entry point {reshard_try_stream, reshard_stream, reshard_iter, query::runner::reshard_aad (positions stay local, records are resharded)} x selection {round-robin by record id, all-to-one, keep, ctx.pick_shard (PRSS) as the shuffle does, generated table, public value mod S as the PRF resharding does} x size hint overstated by {0,1,3,17,1000} x {semi-honest, malicious} sharded context x runtime {current-thread, 2/4 workers} x gateway active {default,2,4,16,64} / read size {default,16,24,48,100} x per helper-shard start delay and input-stream Pending pattern; oracle: every helper-shard returns Ok and shard d of helper h holds exactly concat over source shards s=0..S-1 of the records of input(h,s) selected for d, in input order (the documented order), compared record by record with the helper's own copies; non-trivial = >=2 shards, a record changes shard and some shard is fed by >=2 sources",
+            "shards {1,2,3,5} x records per source shard (all empty, one record, fewer than shards, one source only, even, skewed, random split; total 0..80, thorough 0..400) x record type {Replicated<BA64>, PrfHybridReport<BA8,BA3>} x entry point {reshard_try_stream, reshard_stream, reshard_iter, query::runner::reshard_aad (positions stay local, records are resharded)} x selection {round-robin by record id, all-to-one, keep, ctx.pick_shard (PRSS) as the shuffle does, generated table, public value mod S as the PRF resharding does} x size hint overstated by {0,1,3,17,1000} x {semi-honest, malicious} sharded context x runtime {current-thread, 2/4 workers} x gateway active {default,2,4,16,64} / read size {default,16,24,48,100} x per helper-shard start delay and input-stream Pending pattern; oracle: every helper-shard returns Ok, shard d of helper h holds exactly the multiset of the records of input(h,*) selected for d (compared with the helper's own copies), and the order in which it holds them is the same on all three helpers although their timings differ (the order the code documents - concatenation over source shards in input order - is recorded as a label, not demanded); non-trivial = >=2 shards, a record changes shard and some shard is fed by >=2 sources",
         )
         .shrink_iters(60),
         Sub::exhaustive(
